@@ -208,6 +208,7 @@ fn split_at_cuts(body: &[u8], cuts: &[usize]) -> Vec<Vec<u8>> {
     let mut out = vec![];
     let mut prev = 0;
     for &c in cuts {
+        let c = c.min(body.len()).max(prev); // cuts are positions in the body; out-of-range ones give empty chunks
         out.push(body[prev..c].to_vec());
         prev = c;
     }
@@ -568,7 +569,7 @@ fn corpus() -> Vec<(PipeCase, Vec<usize>)> {
         mk(b"data: x\xE2\x82A\n\n", &[7]),
         // S11 second half: an event after [DONE] in the same chunk / in the next one
         mk(b"data: [DONE]\n\ndata: x\n\n", &[14]),
-        mk(b"data: {\"type\":\"response.output_text.delta\",\"delta\":\"\xE2\x82\xAC\"}\r\n\r\n", &[50, 51, 66]),
+        mk(b"data: {\"type\":\"response.output_text.delta\",\"delta\":\"\xE2\x82\xAC\"}\r\n\r\n", &[50, 51, 59]),
         mk(b"event: e\n\ndata: x\n\n", &[9]),
         mk(b"data: x\n\r", &[8]),
     ]
@@ -609,13 +610,20 @@ fn main() {
         bodies.push((Body { bytes: pc.body.clone(), expected: None, tags: vec!["corpus"] }, pc, Some(cuts)));
     }
     for _ in 0..nbodies {
-        let b = gen_body(&mut r);
+        let mut b = gen_body(&mut r);
         let pc = PipeCase {
             body: b.bytes.clone(),
             off: *r.pick(&[0u64, 0, 1, 7, 1000, 1 << 40]),
             compat: r.chance(1, 3),
             terr: if r.chance(1, 10) { Some("connection reset by peer".to_string()) } else { None },
         };
+        // a stream that breaks with a transport error is never finish()ed: the event whose blank line was cut
+        // short (CR-only tail) is an incomplete event then, not one the provider sent
+        if pc.terr.is_some() && b.tags.contains(&"cr-only-tail") {
+            if let Some(e) = b.expected.as_mut() {
+                e.pop();
+            }
+        }
         bodies.push((b, pc, None));
     }
     for (b, pc, fixed_cuts) in &bodies {
